@@ -236,8 +236,9 @@ impl SpanDisplay {
     pub fn new(source_text: SourceTextRef<'_>, span: Span) -> Self {
         #[allow(clippy::cast_possible_truncation)]
         #[allow(clippy::cast_sign_loss)]
+        // The number of decimal digits of the largest line number shown.
         let gutter_width = std::cmp::max(
-            (span.end().page.line as f32).log10().ceil() as u8, 1);
+            span.end().page.line.to_string().len() as u8, 1);
 
         Self {
             source_name: source_text.name().map(String::from),
